@@ -100,7 +100,9 @@ Section Resolve.
     | MPoly p cs =>
       let c := or_ char p in
       if negb (c =? p) then Err EAssert else
-      Ok (c, or_ ext_deg (pdeg cs), min_order, FPoly p cs)
+      let e := or_ ext_deg (pdeg cs) in
+      if negb (e =? pdeg cs) then Err EAssert else     (* assert ext_deg == modulus.degree() *)
+      Ok (c, e, min_order, FPoly p cs)
     | MInt z =>
       let c := or_ char z in
       if negb (c =? z) then Err EAssert else
@@ -394,14 +396,14 @@ Section Facts.
     inversion H; subst. apply negb_false_iff, Z.leb_le in E1. auto.
   Qed.
 
-  (** what stage_mod hands to GF, by kind of modulus: the field's characteristic is the
-      resolved char; its degree is the resolved ext_deg unless the modulus is a polynomial *)
+  (** what stage_mod hands to GF: the field's characteristic is the resolved char; its degree
+      is the resolved ext_deg (for every kind of modulus) as soon as ext_deg >= 1 *)
   Lemma stage_mod_facts modulus char ext_deg min_order c e mo m fc fd :
     stage_mod isprime iroot nextprime clog modulus char ext_deg min_order = Ok (c, e, mo, m) ->
     stage_gf isprime irred m = Ok (fc, fd) ->
     fc = c /\
     (mo = min_order \/ (min_order = None /\ mo = Some (c ^ e))) /\
-    (match modulus with MPoly _ cs => fd = pdeg cs | MInt _ => fd = 1 /\ e = 1 | _ => fd = irr_deg e end).
+    (match modulus with MPoly _ cs => fd = pdeg cs /\ e = pdeg cs | MInt _ => fd = 1 /\ e = 1 | _ => fd = irr_deg e end).
   Proof.
     unfold stage_mod, stage_gf. intros H1 H2.
     destruct modulus as [|z|cs|p cs].
@@ -416,6 +418,17 @@ Section Facts.
     - brk; fin.
   Qed.
 
+  Lemma stage_mod_degree modulus char ext_deg min_order c e mo m fc fd :
+    stage_mod isprime iroot nextprime clog modulus char ext_deg min_order = Ok (c, e, mo, m) ->
+    stage_gf isprime irred m = Ok (fc, fd) -> 1 <= e -> fd = e.
+  Proof.
+    intros H1 H2 He. destruct (stage_mod_facts _ _ _ _ _ _ _ _ _ _ H1 H2) as [_ [_ Hk]].
+    assert (Hi : irr_deg e = e) by (unfold irr_deg; destruct (e <=? 0) eqn:E; [apply Z.leb_le in E; lia|reflexivity]).
+    destruct modulus; try (rewrite Hk; exact Hi).
+    - destruct Hk as [-> ->]. reflexivity.
+    - destruct Hk as [-> ->]. reflexivity.
+  Qed.
+
   Lemma stage_order_facts q0 char ext_deg char1 ext1 :
     stage_order fpp (Some q0) char ext_deg = Ok (char1, ext1) ->
     exists p d, fpp q0 = Some (p, d) /\ char1 = Some p /\ ext1 = Some d /\
@@ -428,30 +441,38 @@ Section Facts.
     intros H; inversion H; subst. exists p, d. rewrite E1, E2. auto.
   Qed.
 
+  (** stage_conv keeps a truthy char *)
   Lemma stage_conv_char modulus c1 mod2 char2 :
-    c1 <> 0 -> stage_conv isprime modulus (Some c1) = Ok (mod2, char2) ->
-    char2 = Some c1 /\ (modulus = MNone -> mod2 = MNone) /\
-    (forall z, modulus = MInt z -> z <= c1 -> mod2 = MInt z).
+    c1 <> 0 -> stage_conv isprime modulus (Some c1) = Ok (mod2, char2) -> char2 = Some c1.
   Proof.
     intros Hc. unfold stage_conv. destruct modulus as [|z|cs|p cs].
-    - intros H; inversion H; subst. repeat split; auto; try discriminate.
-    - destruct (negb (c1 =? 0) && (z >? c1)) eqn:E.
-      + destruct (isprime c1); [|discriminate]. intros H; inversion H; subst.
-        repeat split; try discriminate. intros z0 Hz Hle. inversion Hz; subst.
-        apply andb_true_iff in E. destruct E as [_ E]. apply Z.gtb_lt in E. lia.
-      + intros H; inversion H; subst. repeat split; try discriminate. intros z0 Hz _. exact Hz.
-    - rewrite or_some by exact Hc. destruct (isprime c1); [|discriminate].
-      intros H; inversion H; subst. repeat split; discriminate.
-    - intros H; inversion H; subst. repeat split; discriminate.
+    - intros H; inversion H; reflexivity.
+    - destruct (negb (c1 =? 0) && (z >? c1)).
+      + destruct (isprime c1); [|discriminate]. intros H; inversion H; reflexivity.
+      + intros H; inversion H; reflexivity.
+    - rewrite or_some by exact Hc. destruct (isprime c1); [|discriminate]. intros H; inversion H; reflexivity.
+    - intros H; inversion H; reflexivity.
   Qed.
 
-  Lemma stage_mod_keeps modulus c1 e1 mo c e mo' m :
-    c1 <> 0 -> e1 <> 0 ->
-    stage_mod isprime iroot nextprime clog modulus (Some c1) (Some e1) mo = Ok (c, e, mo', m) ->
-    c = c1 /\ e = e1.
+  (** stage_mod keeps a truthy char / a truthy ext_deg *)
+  Lemma stage_mod_keeps_char modulus c1 ext mo c e mo' m :
+    c1 <> 0 -> stage_mod isprime iroot nextprime clog modulus (Some c1) ext mo = Ok (c, e, mo', m) -> c = c1.
   Proof.
-    intros Hc He. unfold stage_mod. destruct modulus as [|z|cs|p cs]; rewrite ?or_some by assumption.
+    intros Hc. unfold stage_mod. destruct modulus as [|z|cs|p cs]; rewrite ?or_some by assumption.
     - destruct mo as [mo0|]; rewrite ?or_some by assumption; intros H; brk; auto.
+    - intros H; brk; auto.
+    - discriminate.
+    - intros H; brk; auto.
+  Qed.
+
+  Lemma stage_mod_keeps_deg modulus char e1 mo c e mo' m :
+    e1 <> 0 -> stage_mod isprime iroot nextprime clog modulus char (Some e1) mo = Ok (c, e, mo', m) -> e = e1.
+  Proof.
+    intros He. unfold stage_mod. destruct modulus as [|z|cs|p cs]; rewrite ?or_some by assumption.
+    - destruct mo as [mo0|]; [destruct char as [c0|]|]; rewrite ?or_some by assumption.
+      + intros H; brk; auto.
+      + destruct (iroot mo0 e1) as [root exact]. intros H; brk; auto.
+      + intros H; brk; auto.
     - intros H; brk; auto.
     - discriminate.
     - intros H; brk; auto.
@@ -459,11 +480,14 @@ Section Facts.
 
   Definition resolve' := resolve fpp isprime irred iroot nextprime clog.
 
-  (** For ALL argument values: a successful call has field characteristic = resolved char,
-      claimed order = [order] if given else char^ext_deg, and min_order <= claimed order. *)
-  Theorem resolve_bookkeeping order modulus char ext_deg min_order fc fd c e q :
+  (** the three stages of a successful call, exposed *)
+  Lemma resolve_stages order modulus char ext_deg min_order fc fd c e q :
     resolve' order modulus char ext_deg min_order = Ok (fc, fd, c, e, q) ->
-    fc = c /\ q = or_ order (c ^ e) /\ or_ min_order q <= q.
+    exists char1 ext1 mod2 char2 mo m,
+      stage_order fpp order char ext_deg = Ok (char1, ext1) /\
+      stage_conv isprime modulus char1 = Ok (mod2, char2) /\
+      stage_mod isprime iroot nextprime clog mod2 char2 ext1 min_order = Ok (c, e, mo, m) /\
+      q = or_ order (c ^ e) /\ or_ mo q <= q /\ stage_gf isprime irred m = Ok (fc, fd).
   Proof.
     unfold resolve', resolve. intros H.
     destruct (stage_order fpp order char ext_deg) as [[char1 ext1]|] eqn:E1; [|discriminate].
@@ -471,48 +495,112 @@ Section Facts.
     destruct (stage_mod isprime iroot nextprime clog mod2 char2 ext1 min_order)
       as [[[[c0 e0] mo0] m0]|] eqn:E3; [|discriminate].
     apply final_facts in H. destruct H as [-> [-> [Hq [Hmo Hgf]]]].
+    exists char1, ext1, mod2, char2, mo0, m0. auto 10.
+  Qed.
+
+  (** For ALL argument values: a successful call has field characteristic = resolved char,
+      field degree = resolved ext_deg (when >= 1), claimed order = [order] if given else
+      char^ext_deg, and min_order <= claimed order. *)
+  Theorem resolve_bookkeeping order modulus char ext_deg min_order fc fd c e q :
+    resolve' order modulus char ext_deg min_order = Ok (fc, fd, c, e, q) ->
+    fc = c /\ (1 <= e -> fd = e) /\ q = or_ order (c ^ e) /\ or_ min_order q <= q.
+  Proof.
+    intros H. destruct (resolve_stages _ _ _ _ _ _ _ _ _ _ H)
+      as [char1 [ext1 [mod2 [char2 [mo [m [E1 [E2 [E3 [Hq [Hmo Hgf]]]]]]]]]]].
     destruct (stage_mod_facts _ _ _ _ _ _ _ _ _ _ E3 Hgf) as [Hc [Hm _]].
-    split; [exact Hc|split; [exact Hq|]].
+    split; [exact Hc|split; [exact (stage_mod_degree _ _ _ _ _ _ _ _ _ _ E3 Hgf)|split; [exact Hq|]]].
     destruct Hm as [->|[-> _]]; [exact Hmo|]. simpl. lia.
   Qed.
 
-  (** min_order is a lower bound of the claimed order, unconditionally (final assert) *)
+  (** law of gmpy2.factor_prime_power *)
+  Definition fpp_law := forall x p d, fpp x = Some (p, d) -> p ^ d = x /\ p <> 0 /\ 1 <= d.
+
+  (** explicit order q0: the FIELD (whatever the modulus argument) has exactly order q0, its
+      characteristic and degree are the prime-power factorisation of q0 *)
+  Theorem secfld_order_exact q0 modulus char ext_deg min_order fc fd c e q :
+    fpp_law ->
+    resolve' (Some q0) modulus char ext_deg min_order = Ok (fc, fd, c, e, q) ->
+    fpp q0 = Some (fc, fd) /\ fc ^ fd = q0 /\ q = q0 /\ c = fc /\ e = fd.
+  Proof.
+    intros Law H. destruct (resolve_stages _ _ _ _ _ _ _ _ _ _ H)
+      as [char1 [ext1 [mod2 [char2 [mo [m [E1 [E2 [E3 [Hq [Hmo Hgf]]]]]]]]]]].
+    apply stage_order_facts in E1. destruct E1 as [p [d [Hf [-> [-> _]]]]].
+    destruct (Law _ _ _ Hf) as [Hpd [Hp Hd]].
+    assert (Hd0 : d <> 0) by lia.
+    pose proof (stage_conv_char _ _ _ _ Hp E2) as ->.
+    pose proof (stage_mod_keeps_char _ _ _ _ _ _ _ _ Hp E3) as ->.
+    pose proof (stage_mod_keeps_deg _ _ _ _ _ _ _ _ Hd0 E3) as ->.
+    destruct (stage_mod_facts _ _ _ _ _ _ _ _ _ _ E3 Hgf) as [-> _].
+    pose proof (stage_mod_degree _ _ _ _ _ _ _ _ _ _ E3 Hgf Hd) as ->.
+    assert (Hq0 : q0 <> 0).
+    { intros ->. assert (0 < p ^ d \/ p ^ d < 0 \/ p ^ d = 0) by lia.
+      apply Z.pow_eq_0_iff in Hpd. lia. }
+    rewrite or_some in Hq by exact Hq0.
+    repeat split; auto.
+  Qed.
+
+  (** explicit (nonzero) char: the field has that characteristic *)
+  Theorem secfld_char_exact order modulus c0 ext_deg min_order fc fd c e q :
+    c0 <> 0 ->
+    resolve' order modulus (Some c0) ext_deg min_order = Ok (fc, fd, c, e, q) -> fc = c0.
+  Proof.
+    intros Hc0 H. destruct (resolve_stages _ _ _ _ _ _ _ _ _ _ H)
+      as [char1 [ext1 [mod2 [char2 [mo [m [E1 [E2 [E3 [Hq [Hmo Hgf]]]]]]]]]]].
+    assert (Hc1 : char1 = Some c0).
+    { destruct order as [q0|].
+      - apply stage_order_facts in E1. destruct E1 as [p [d [_ [-> [_ [Hor _]]]]]].
+        rewrite or_some in Hor by exact Hc0. subst. reflexivity.
+      - simpl in E1. inversion E1. reflexivity. }
+    subst char1.
+    pose proof (stage_conv_char _ _ _ _ Hc0 E2) as ->.
+    pose proof (stage_mod_keeps_char _ _ _ _ _ _ _ _ Hc0 E3) as ->.
+    destruct (stage_mod_facts _ _ _ _ _ _ _ _ _ _ E3 Hgf) as [-> _]. reflexivity.
+  Qed.
+
+  (** explicit ext_deg >= 1: the field has that degree (also with a polynomial modulus) *)
+  Theorem secfld_ext_deg_exact order modulus char e0 min_order fc fd c e q :
+    1 <= e0 ->
+    resolve' order modulus char (Some e0) min_order = Ok (fc, fd, c, e, q) -> fd = e0 /\ e = e0.
+  Proof.
+    intros He0 H. destruct (resolve_stages _ _ _ _ _ _ _ _ _ _ H)
+      as [char1 [ext1 [mod2 [char2 [mo [m [E1 [E2 [E3 [Hq [Hmo Hgf]]]]]]]]]]].
+    assert (Hne : e0 <> 0) by lia.
+    assert (He1 : ext1 = Some e0).
+    { destruct order as [q0|].
+      - apply stage_order_facts in E1. destruct E1 as [p [d [_ [_ [-> [_ Hor]]]]]].
+        rewrite or_some in Hor by exact Hne. subst. reflexivity.
+      - simpl in E1. inversion E1. reflexivity. }
+    subst ext1.
+    pose proof (stage_mod_keeps_deg _ _ _ _ _ _ _ _ Hne E3) as ->.
+    split; [|reflexivity]. exact (stage_mod_degree _ _ _ _ _ _ _ _ _ _ E3 Hgf He0).
+  Qed.
+
+  (** the claimed order IS the order of the field handed out (resolved ext_deg >= 1) *)
+  Theorem secfld_claimed_is_actual order modulus char ext_deg min_order fc fd c e q :
+    fpp_law -> 1 <= e ->
+    resolve' order modulus char ext_deg min_order = Ok (fc, fd, c, e, q) -> q = fc ^ fd.
+  Proof.
+    intros Law He H. destruct order as [q0|].
+    - destruct (secfld_order_exact _ _ _ _ _ _ _ _ _ _ Law H) as [_ [Hp [-> _]]]. symmetry; exact Hp.
+    - destruct (resolve_bookkeeping _ _ _ _ _ _ _ _ _ _ H) as [-> [Hd [Hq _]]].
+      rewrite (Hd He). exact Hq.
+  Qed.
+
+  (** min_order is a lower bound of the claimed order, unconditionally (final assert) ... *)
   Theorem secfld_min_order order modulus char ext_deg mo fc fd c e q :
     mo <> 0 ->
     resolve' order modulus char ext_deg (Some mo) = Ok (fc, fd, c, e, q) -> mo <= q.
   Proof.
-    intros Hmo H. apply resolve_bookkeeping in H. destruct H as [_ [_ H]].
+    intros Hmo H. apply resolve_bookkeeping in H. destruct H as [_ [_ [_ H]]].
     rewrite or_some in H by exact Hmo. exact H.
   Qed.
 
-  (** explicit order q0 (law of factor_prime_power: p^d = x, p, d nonzero): the resolved
-      (char, ext_deg) satisfy char^ext_deg = q0 = claimed order; and when the modulus is absent or
-      an int that is not converted to a polynomial, the FIELD has exactly order q0. *)
-  Theorem secfld_order_exact_partial q0 modulus char ext_deg min_order fc fd c e q :
-    (forall x p d, fpp x = Some (p, d) -> p ^ d = x /\ p <> 0 /\ 1 <= d) -> q0 <> 0 ->
-    resolve' (Some q0) modulus char ext_deg min_order = Ok (fc, fd, c, e, q) ->
-    q = q0 /\ c ^ e = q0 /\ fc = c /\ fpp q0 = Some (c, e) /\
-    ((modulus = MNone \/ exists z, modulus = MInt z /\ z <= c) -> fd = e /\ fc ^ fd = q0).
+  (** ... hence of the ACTUAL field order *)
+  Theorem secfld_min_order_field order modulus char ext_deg mo fc fd c e q :
+    fpp_law -> 1 <= e -> mo <> 0 ->
+    resolve' order modulus char ext_deg (Some mo) = Ok (fc, fd, c, e, q) -> mo <= fc ^ fd.
   Proof.
-    intros Law Hq0 H. pose proof (resolve_bookkeeping _ _ _ _ _ _ _ _ _ _ H) as [Hfc [Hq _]].
-    rewrite or_some in Hq by exact Hq0.
-    unfold resolve', resolve in H.
-    destruct (stage_order fpp (Some q0) char ext_deg) as [[char1 ext1]|] eqn:E1; [|discriminate].
-    apply stage_order_facts in E1. destruct E1 as [p [d [Hf [-> [-> _]]]]].
-    destruct (Law _ _ _ Hf) as [Hpd [Hp Hd]].
-    destruct (stage_conv isprime modulus (Some p)) as [[mod2 char2]|] eqn:E2; [|discriminate].
-    destruct (stage_conv_char _ _ _ _ Hp E2) as [-> [HN HI]].
-    destruct (stage_mod isprime iroot nextprime clog mod2 (Some p) (Some d) min_order)
-      as [[[[c0 e0] mo0] m0]|] eqn:E3; [|discriminate].
-    assert (Hd0 : d <> 0) by lia.
-    destruct (stage_mod_keeps _ _ _ _ _ _ _ _ Hp Hd0 E3) as [-> ->].
-    apply final_facts in H. destruct H as [-> [-> [_ [_ Hgf]]]].
-    destruct (stage_mod_facts _ _ _ _ _ _ _ _ _ _ E3 Hgf) as [_ [_ Hk]].
-    assert (Hfd : (modulus = MNone \/ (exists z, modulus = MInt z /\ z <= p)) -> fd = d).
-    { intros [HM|[z [HM Hz]]].
-      - rewrite (HN HM) in Hk. unfold irr_deg in Hk. destruct (d <=? 0) eqn:E; [apply Z.leb_le in E; lia|]. exact Hk.
-      - rewrite (HI z HM Hz) in Hk. destruct Hk as [-> He1]. symmetry; exact He1. }
-    repeat split; auto.
-    rewrite (Hfd H), Hfc. exact Hpd.
+    intros Law He Hmo H. rewrite <- (secfld_claimed_is_actual _ _ _ _ _ _ _ _ _ _ Law He H).
+    exact (secfld_min_order _ _ _ _ _ _ _ _ _ _ Hmo H).
   Qed.
 End Facts.
